@@ -127,8 +127,8 @@ def gen_one(chk, flexes, spec, name, optname, opts, var, d):
             b = b.replace(wd.encode() + b"/", b"@WD@/").replace(b"<stdout>", b"@WD@/s.c")
             b = b.replace(b"flex-renamed", b"flex")
         data[k] = b
-    err = res.err.decode("latin1").replace(wd + "/", "@WD@/").replace("flex-renamed", "flex")
-    err = err.replace(flex.bin, "@FLEX@").replace(binp, "@FLEX@")
+    err = res.err.decode("latin1").replace(binp, "@FLEX@").replace(flex.bin, "@FLEX@")
+    err = err.replace(wd + "/", "@WD@/")
     # the -v statistics echo the command line (output path, -t): not an output of generation
     err = "\n".join(l for l in err.split("\n") if not l.startswith("  scanner options:")
                     and "usage statistics" not in l)
@@ -169,8 +169,8 @@ def spec_worker(args):
                     name, optname, brc, bname, res.rc, var[0]), None))
                 continue
             for k in bdata:
-                if k == "backup" and var[0] == "shim01-pad-cwd":
-                    pass
+                if brc != 0:
+                    break       # refused: there is no output to compare
                 if bdata[k] != data.get(k):
                     a, b = bdata[k], data.get(k)
                     where = "?"
